@@ -107,7 +107,7 @@ def random_history(ctx, rng, tk):
     P = int(rng.integers(1, 7))
     dt = float(rng.choice([600, 1800, 3600, 10800]))
     fp, dpm = gen_history(rng, T, P)
-    wspd = rng.uniform(1, 25, T)
+    wspd = rng.uniform(1, 25, T) if rng.random() < 0.7 else 10 ** rng.uniform(-1.5, 0.3, T)     # light airs too
     kw = {}
     if rng.random() < 0.5:
         kw = {"ddpm_sea_max": float(rng.choice([10, 30, 60])), "ddpm_swell_max": float(rng.choice([5, 20, 45])),
@@ -124,7 +124,7 @@ def batched(ctx, rng, xr, tk):
     fps, dps = zip(*[gen_history(rng, T, P) for _ in range(S)])
     fp = np.stack(fps, 0)
     dp = np.stack(dps, 0)
-    wspd = rng.uniform(1, 25, (S, T))
+    wspd = rng.uniform(1, 25, (S, T)) if rng.random() < 0.7 else 10 ** rng.uniform(-1.5, 0.3, (S, T))
     order = str(rng.choice(["site,part,time", "time,site,part", "part,time,site"]))
     stats = xr.Dataset({"fp": (("site", "part", "time"), fp), "dpm": (("site", "part", "time"), dp)},
                        coords={"site": np.arange(S), "part": np.arange(P), "time": tt}).transpose(*order.split(","))
